@@ -161,8 +161,9 @@ def rule_c16(prog, rep):
     # ---- TB4
     hw = _find_table(local_tables(f_he), 16)
     hr = _find_table(local_tables(f_hd), 256)
-    rep.broken_if(hw is None, 'qhex_encode: 16-entry digit table not found')
-    rep.broken_if(hr is None, 'qhex_decode: 256-entry map table not found')
+    # a hex codec without tables (digit helpers) has no table to check here: its digits are decided by TB12/TB13
+    if hw is None or hr is None:
+        rep.notes['hex_tables'] = 'not table driven (digit helpers): table conformance TB4 has no instance, TB12/TB13 tabulate the helpers'
     if hw:
         name, (decl, vals) = hw
         for i in range(16):
@@ -525,6 +526,14 @@ def rule_query_split(prog, rep, rid='TB9'):
     f = prog.need_func('qparse_queries')
     from .own import propagate, node_events
     bad = []
+    # the pair handling may live in a static helper: analyse the function that contains the splitter calls
+    if not any(x.get('kind') == 'CallExpr' and prog.callee_name(x) == '_q_makeword' for x in walk(f.body)):
+        for x in walk(f.body):
+            if x.get('kind') == 'CallExpr':
+                for g in prog.callees(f.unit, x):
+                    if getattr(g, 'body', None) is not None and g.static and any(
+                            y.get('kind') == 'CallExpr' and prog.callee_name(y) == '_q_makeword' for y in walk(g.body)):
+                        f = g
 
     def transfer(n, st):
         s = set(st)
